@@ -46,8 +46,53 @@ ASSUMPTIONS = [
 ]
 
 
+def gen_index_batch(rng):
+    """One wide model (5-9 plain fields) and one step with 2-4
+    ChangeField(db_index / unique toggles) on distinct fields plus optional
+    other mutations: several per-field index operations in one batch."""
+    import copy
+    nchar, nint = rng.randint(2, 5), rng.randint(2, 4)
+    fields = []
+    for i in range(nchar):
+        fields.append({'name': 'c%d' % i, 'kind': 'Char',
+                       'attrs': {'max_length': 20}})
+    for i in range(nint):
+        fields.append({'name': 'n%d' % i, 'kind': 'Integer', 'attrs': {}})
+    rng.shuffle(fields)
+    for f in fields:
+        if rng.random() < 0.3:
+            f['attrs']['db_index'] = True
+    model = {'name': 'Item', 'fields': fields, 'meta': {}}
+    picks = rng.sample(fields, rng.randint(2, min(4, len(fields))))
+    muts = []
+    for f in picks:
+        muts.append({'op': 'ChangeField', 'model': 'Item', 'name': f['name'],
+                     'attrs': {'db_index': not f['attrs'].get('db_index',
+                                                              False)}})
+    if rng.random() < 0.4:
+        muts.insert(rng.randrange(0, len(muts) + 1), {
+            'op': 'AddField', 'model': 'Item', 'field': {
+                'name': 'extra', 'kind': 'Integer',
+                'attrs': {'null': True}}})
+    k = rng.choice([1, 1, 2])
+    cut = rng.randrange(1, len(muts)) if k == 2 and len(muts) > 1 else None
+    evos = [{'label': 'va_e1', 'mutations': muts}] if cut is None else [
+        {'label': 'va_e1', 'mutations': muts[:cut]},
+        {'label': 'va_e1b', 'mutations': muts[cut:]}]
+    project = {'apps': {'va': {'v0': [model], 'steps': [{'evos': evos}]}},
+               'order': ['va'], 'databases': ['default']}
+    rows = {'va_item': []}
+    return {'project': project, 'rows': rows, 'rows_by_version': [rows, rows],
+            'simple': False, 'cfg_meta': [], 'index_batch': True}
+
+
 def generate(seed, index, tier):
     rng = scenarios.derive_rng(seed, ID, index)
+    if rng.random() < 0.25:
+        h = gen_index_batch(rng)
+        h['start'], h['target'] = 0, 1
+        h['h1'], h['h2'] = rng.sample([0, 1, 2, 3], 2)
+        return h
     if rng.random() < 0.4:
         h = history.gen_history(rng, simple=True,
                                 two_apps=rng.random() < 0.4)
